@@ -133,6 +133,11 @@ def junk_dfa():
         # junk line forms at a line start
         T[("a", q)]["ERROR"] = (("j", "rest"), "junk")
         T[("a", q)]["COLON"] = (("j", "rest"), "junk")
+    # an indented line with text where no field can be continued (document start, after a blank line, after a comment
+    # line inside a paragraph) is neither field, continuation, comment nor blank
+    for q in ("S0", "L2"):
+        T[("a", q)]["INDENT"] = (("j", "ind"), "junk")
+    T[("j", "ind")] = {"VALUE": (("j", "rest2"), "junk")}
     # KEY not followed by a colon
     T[("a", "K1")]["NEWLINE"] = (("b", "S0x"), "junk-nl")
     T[("a", "K1")]["WHITESPACE"] = (("j", "rest"), "junk")
